@@ -96,5 +96,38 @@ theorem initResets_eq : Generated.initResets = ["data", "off", "savedError"] := 
 
 theorem legacyUsesStdlib_eq : Generated.legacyUsesStdlib = true := rfl
 
+/-! ### shared state: the Go-level facts the world model of C09/C10 (JP/World) assumes -/
+
+/-- S1: `scanner.reset` assigns exactly step, parseState, err, endTop -/
+theorem scanReset_eq : Generated.scanResetAssigns = ["endTop", "err", "parseState", "step"] := rfl
+
+/-- S2: `newScanner` = pool Get; bytes = 0; reset -/
+theorem newScanner_eq : Generated.newScannerResets = true := rfl
+
+/-- E1: `newEncodeState` resets the buffer and ptrLevel and panics on a non-empty ptrSeen -/
+theorem newEncodeState_eq : Generated.newEncodeState = [true, true, true, true] := rfl
+
+/-- D4: `lastKeys` has one assignment site (object decoded into a map) and two read sites
+(the two `…WithKeys` entry points) -/
+theorem lastKeys_sites_eq : Generated.lastKeysAssignSites = 1 ∧ Generated.lastKeysReadSites = 2 := ⟨rfl, rfl⟩
+
+/-- D5: `disallowUnknownFields` is assigned only in stream.go (the Decoder's private state) -/
+theorem disallowUnknown_eq : Generated.disallowUnknownAssignFiles = ["stream.go"] := rfl
+
+/-- L2: the order list `keys` is mentioned only by these functions of the library -/
+theorem keysMentions_eq : Generated.keysMentions = ["TrustMarshalJSON", "UnmarshalJSON", "mergeDocs", "remove", "set"] := rfl
+
+/-- L4: the package variables are never assigned by the library -/
+theorem packageVarWrites_eq : Generated.packageVarWrites = 0 := rfl
+
+/-- D1: each `Unmarshal*` takes one state from the pool, releases it by a deferred Put, and
+calls `init` after the Get -/
+theorem decodePool_eq : Generated.decodePoolDiscipline =
+    [("Unmarshal", 1, 1, true), ("UnmarshalValid", 1, 1, true), ("UnmarshalValidWithKeys", 1, 1, true),
+     ("UnmarshalWithKeys", 1, 1, true)] := rfl
+
+/-- no indexed write into a caller-supplied byte slice or through `*n.raw` in patch.go / merge.go -/
+theorem inputWrites_eq : Generated.inputWrites = 0 := rfl
+
 end Facts
 end JP
